@@ -151,6 +151,24 @@ def getattr_obj(I, obj, ty, name):
         if key not in ctx.partial_objs and ty.fields and name not in ty.fields and not getattr(ty, "open_shape", False):
             # an attribute the contract's shape does not describe: its value is ARBITRARY (over-approximation: no invariant is assumed)
             ctx.note("attribute %s of %s is not described by the contract's shape: read as an arbitrary value" % (name, ty.cls.key))
+            # ... unless __init__ visibly assigns it a fresh library object of a type with an assumed contract (a lock, a semaphore, an event)
+            lib = None
+            for init, expr in I.repo.init_value_expr(ty.cls, name):
+                if isinstance(expr, ast.Call):
+                    try:
+                        fn = I.repo.resolve_global(init.module, ast.unparse(expr.func).split(".")[0])
+                        dotted = None
+                        if isinstance(fn, ExternalRef):
+                            dotted = ".".join([fn.dotted] + ast.unparse(expr.func).split(".")[1:])
+                        lib = I.E.external_result_types.get(dotted)
+                    except Exception:  # noqa
+                        lib = None
+            if lib is not None and lib in I.E.shared_types:
+                lty = I.E.shared_types[lib]
+                sv = ctx.typed(ctx.load_raw(ctx.ref_id(obj), name), lty)
+                ctx.assume(z3.And(Z.is_refv(sv.t), Z.Val.id(sv.t) > 0, Z.Val.id(sv.t) < ctx.alloc0))
+                ctx.assume_class(sv.t, lty)
+                return sv
             return SV(ctx.load_raw(ctx.ref_id(obj), name), TAny())
         return ctx.typed(ctx.load_raw(ctx.ref_id(obj), name), ty.fields.get(name))
     if name in ov:
